@@ -578,12 +578,14 @@ func failingOp(cause int) ovsdb.Operation {
 	case 6: // commit-time: dangling strong reference
 		return ovsdb.Operation{Op: ovsdb.OperationMutate, Table: "Root", Where: c04.ByUUID(fix.U1),
 			Mutations: []ovsdb.Mutation{{Column: "kids", Mutator: ovsdb.MutateOperationInsert, Value: ovsdb.OvsSet{GoSet: []interface{}{ovsdb.UUID{GoUUID: fix.Dangling}}}}}}
-	default: // commit-time: duplicate value of the unique index on name
+	case 7: // commit-time: duplicate value of the unique index on name
 		return ovsdb.Operation{Op: ovsdb.OperationInsert, Table: "Root", UUID: fix.U2, Row: ovsdb.Row{"name": "r1"}}
+	default: // an insert under the UUID of a stored row
+		return ovsdb.Operation{Op: ovsdb.OperationInsert, Table: "Root", UUID: fix.U1, Row: ovsdb.Row{"name": "another"}}
 	}
 }
 
-const nCauses = 8
+const nCauses = 9
 
 // failing: a transaction whose operation j fails (or that is rejected at commit) changes nothing, notifies
 // nobody, reports the failure in the right place, and leaves the server behaving as if it had never been sent.
@@ -626,7 +628,7 @@ func failing(cfg c04.Cfg, nBefore int) {
 	rt.Assert(before.Matches(e.DB), "C02: the database holds exactly the rows it held before")
 	rt.Assert(before.RefIndexMatches(e.DB), "C02: the reference index is unchanged")
 	rt.Assert(len(e.Notes) == 0, "C02: no monitor is notified of anything")
-	if cause >= 6 {
+	if cause == 6 || cause == 7 {
 		n := len(ops)
 		rt.Assert(len(res) == n+1, "C02: a commit-time rejection reports all operation results plus one extra error element")
 		for i := 0; i < n && i < len(res); i++ {
